@@ -36,11 +36,11 @@ PROPS = {
             "open_obligations": ["completeness fails when a Jie instant lies inside the queried two-hour slot (known finding); completeness elsewhere is checked by search-C10, not proved"]},
     "C11": {"lean_target": ["Props.C11", "Props.Purity", "Props.C18Reads", "Props.FnSC11", "Props.AstroBase"], "gens": ["gen-alm", "gen-ec", "gen-terms"], "searches": ["search-C11"],
             "trusted_base": [ASTRO_TB, STD_TB]},
-    "C12": {"lean_target": ["Props.C12", "Props.Purity", "Props.FnC12", "Props.AstroBase"], "gens": ["gen-ec"], "searches": ["search-C12"],
+    "C12": {"lean_target": ["Props.C12", "Props.Purity", "Props.FnC12", "Props.AstroBase", "Props.FnSC12"], "gens": ["gen-ec"], "searches": ["search-C12"],
             "trusted_base": [ASTRO_TB]},
     "C13": {"lean_target": ["Props.C13", "Props.Purity", "Props.FnC13", "Props.AstroBase", "Props.FnSC13"], "gens": ["gen-terms"], "searches": ["search-C13"],
             "trusted_base": [ASTRO_TB, STD_TB]},
-    "C14": {"lean_target": ["Props.C14", "Props.Purity"], "gens": ["gen-holiday"], "searches": ["search-C14"],
+    "C14": {"lean_target": ["Props.C14", "Props.Purity", "Props.FnC14"], "gens": ["gen-holiday"], "searches": ["search-C14"],
             "trusted_base": [STD_TB]},
     "C15": {"lean_target": ["Props.C15", "Props.Purity", "Props.FnC15"], "gens": ["gen-week"], "searches": ["search-C15"],
             "trusted_base": [FLOAT_TB]},
